@@ -38,7 +38,8 @@ extern "C" void __tsan_on_report(void*)
 }
 extern "C" const char* __tsan_default_options()
 {
-    return "halt_on_error=0:report_signal_unsafe=0:exitcode=0:verbosity=0:log_path=/dev/null";
+    return "halt_on_error=0:report_signal_unsafe=0:exitcode=0:verbosity=0:log_path=/dev/null:"
+           "suppress_equal_stacks=0:suppress_equal_addresses=0";
 }
 
 namespace
@@ -94,22 +95,24 @@ protected:
     int sync() override
     {
         // a flush while somebody is between Enter and Leave is a race on the buffer as well
-        if (inside_.load() != 0) corrupt_.store(true);
+        if (inside_.load(std::memory_order_relaxed) != 0) corrupt_.store(true, std::memory_order_relaxed);
         return 0;
     }
 
 private:
+    // all atomics are relaxed on purpose: they must not create happens-before edges of their own, otherwise
+    // ThreadSanitizer would consider the buffer synchronised and stay silent when the sink's lock is missing
     void enter()
     {
-        if (inside_.fetch_add(1) != 0) corrupt_.store(true);
+        if (inside_.fetch_add(1, std::memory_order_relaxed) != 0) corrupt_.store(true, std::memory_order_relaxed);
     }
     void leave()
     {
-        inside_.fetch_sub(1);
+        inside_.fetch_sub(1, std::memory_order_relaxed);
     }
     void put(char c)
     {
-        std::size_t i = pos_.fetch_add(1);
+        std::size_t i = pos_.fetch_add(1, std::memory_order_relaxed);
         if (i < cap_) store_[i] = c;
         plain_bytes_ = plain_bytes_ + 1; // unsynchronised on purpose: a lost update or a TSan report betrays a race
     }
